@@ -840,10 +840,25 @@ func confirm(b *build, path, sig string) (bool, string) {
 	cmd.Stderr, cmd.Stdout = &eb, &eb
 	err := cmd.Run()
 	if strings.Contains(sig, "/DATA-RACE/") {
-		vs, _ := raceReports(strings.SplitN(sig, "/", 2)[0], "", eb.String())
-		for _, v := range vs {
-			if v.Viol[0].Sig == sig {
-				return true, ""
+		// the schedule of pandora's tasks replays exactly; what the detector can still tell apart is how the un-yielded
+		// goroutines of net/http and grpc-go (which run in parallel with the released task) were spread over threads, so
+		// the regenerated run gets three attempts, at the worker count of the batch as well as at one
+		for attempt := 0; attempt < 3; attempt++ {
+			if attempt > 0 {
+				eb.Reset()
+				procs := 1
+				if attempt == 2 {
+					procs = 4
+				}
+				cmd = b.worker(procs, "-replay", path, "-out", out)
+				cmd.Stderr, cmd.Stdout = &eb, &eb
+				cmd.Run()
+			}
+			vs, _ := raceReports(strings.SplitN(sig, "/", 2)[0], "", eb.String())
+			for _, v := range vs {
+				if v.Viol[0].Sig == sig {
+					return true, ""
+				}
 			}
 		}
 		return false, "the replay shows no such data race report"
